@@ -834,6 +834,30 @@ class Gen:
         self.stats["atof_ops"] = self.stats.get("atof_ops", 0) + len(ops)
         return {"name": "atof%d" % cid, "ops": ops, "sticky": 0}
 
+    # ---------------------------------------------------------------- esl_getopts_CreateDefaultApp
+    def defapp_case(self, cid):
+        """the standard application start-up: Create + ProcessCmdline + VerifyConfig, then -h -> help page and exit(0),
+        wrong number of arguments -> exit(1), usage error -> exit(1), else the object is returned"""
+        rng = self.rng
+        for _ in range(20):
+            t = self.table(cid)
+            if all(not o["name"].startswith("-h") for o in t.opts):
+                break
+        else:
+            t = Table()
+        t.opts.append({"name": "-h", "type": NONE, "def": None, "env": None, "range": None, "tog": None, "req": None, "inc": None})
+        ops = t.lines()
+        sticky = len(ops)
+        for _ in range(rng.choice([2, 3, 4])):
+            self.cmd_used = set()
+            words = self.argv(t)
+            if rng.random() < 0.25:
+                words.insert(rng.randrange(1, len(words) + 1), rng.choice(["-h", "-h", "-" + "h" * 2]))
+            nopt_args = rng.choice([-1, -1, 0, 1, 2, 3])
+            ops.append("defapp nargs=%d w=%s" % (nopt_args, ",".join(hx(w) for w in words)))
+            self.stats["defapp_ops"] = self.stats.get("defapp_ops", 0) + 1
+        return {"name": "dapp%d" % cid, "ops": ops, "sticky": sticky}
+
     # ---------------------------------------------------------------- ill-formed tables
     DEFECTS = ["dupname", "unknown_tog", "unknown_req", "unknown_inc", "bad_default", "string_range", "unknown_type", "bad_range",
                "no_dash", "tog_int", "empty_elem", "abbrev_elem"]
@@ -924,6 +948,8 @@ class Gen:
             return self.illformed_case(cid)
         if cid % 25 == 9:
             return self.atof_case(cid)
+        if cid % 50 == 11:
+            return self.defapp_case(cid)
         if cid % 25 in (13, 21):
             return self.multicfg_case(cid)
         rng = self.rng
@@ -1035,7 +1061,7 @@ class C14(Prop):
         "alloc_history_refines", "alloc_created_history", "alloc_reuse_is_fresh", "history_after_reuse_is_history_on_fresh_object",
         "create_on_any_table", "create_never_crashes", "create_does_not_check_lists", "unknown_name_in_toggle_list",
         "unknown_name_in_required_list", "set_option_crash_site_unreachable",
-        "displayHelp_fails_iff", "displayHelp_output_documented", "spoofed_cmdline_lists_set_and_on_options", "spoofCmdline_never_crashes",
+        "displayHelp_fails_iff", "displayHelp_output_documented", "spoofed_cmdline_lists_set_and_on_options", "spoofCmdline_never_crashes", "defaultApp_returns_iff",
         "accepted_integer_satisfies_range_as_getter_returns_it",
         "strtod_rounds_to_nearest", "strtod_exact_on_representable", "strtod_rounding_monotone_in_binade", "strtod_monotone",
         "real_range_test_monotone", "inclusive_real_bound_accepts_every_true_member",
@@ -1069,7 +1095,8 @@ class C14(Prop):
         "ill-formed tables (duplicate names, unknown names / empty elements / abbreviations in option lists, bad defaults, ranges on string options, unknown type codes, malformed range strings, names without '-') are generated too (8% of the cases, `create raw=1`) and compared exactly; with duplicate names the query calls answer for the first option of that name (model and harness both resolve by name)",
         "esl_opt_DisplayHelp (pure function of the table; output compared byte for byte at widths around its three layout thresholds) and esl_opt_SpoofCmdline (after fix af97bd9) are modelled and compared exactly; the documentation's 'lines are not allowed to exceed textwidth' holds only up to +2 (the ' :' separator is not counted by the code when an option has a help string): proved bound textwidth+2, reported, not repaired (it would change the layout of every help page)",
         "integer arguments and bounds beyond the int range are generated (2^31, 2^32+k, 2^63, 20+ digits): range check and esl_opt_GetInteger read them with the same atoi() = (int) strtol (clamp to long, low 32 bits), modelled exactly; monitor: a value that passed its range check satisfies the range as GetInteger returns it",
-        "allocation failure paths, esl_getopts_Dump, esl_getopts_CreateOptsLine, esl_getopts_CreateDefaultApp (calls exit()) are not modelled",
+        "esl_getopts_CreateDefaultApp is modelled as a function to its four endings (returned object / exit(0) after help / exit(1) usage error / exit(1) wrong argument count) and run in a forked child by the harness (`defapp` op); the text it prints is not compared beyond its first line's kind",
+        "allocation failure paths, esl_getopts_Dump, esl_getopts_CreateOptsLine are not modelled",
     ]
     rule = ("case = random well-formed option table (1-12 options) + 1-5 sources (cmdline/spoof/env/config file, occasionally Reuse in between) in random order, dumps of every query call in between, + VerifyConfig + full dump; "
             "non-trivial = at least one source returned ok and the final dump shows an option not at its default setter; distinct by output trace")
@@ -1320,6 +1347,17 @@ class C14(Prop):
                 pass
         cmd_failed = False
         texts = []        # everything the sources processed since Create/Reuse said, decoded (for the provenance check of stored values)
+        if case.get("name", "").startswith("dapp"):
+            for op, l in zip(case["ops"], out):
+                if op.startswith("defapp"):
+                    self._out_stats["defapp:" + l.split("=")[0]] = self._out_stats.get("defapp:" + l.split("=")[0], 0) + 1
+                    if not re.match(r"(returned argn=\d+|exit0 help|exit1 parse|exit1 nargs)$", l) and not l.startswith("fault"):
+                        return Failure("monitor", "CreateDefaultApp ended in an undocumented way: %r for %s" % (l, op[:200]))
+                    m = re.match(r"returned argn=(\d+)$", l)
+                    na = int(dict(x.split("=", 1) for x in op.split()[1:])["nargs"])
+                    if m and na != -1 and int(m.group(1)) != na:
+                        return Failure("monitor", "CreateDefaultApp returned with %s arguments although exactly %d were required" % (m.group(1), na))
+            return None
         if case.get("name", "").startswith("atof"):
             for op, l in zip(case["ops"], out):
                 if not re.match(r"isreal=[01] bits=[0-9a-f]{16}$", l):
